@@ -344,7 +344,13 @@ protected:
       uintptr_t idx = static_cast<uintptr_t>(p) % TableSize;
       return const_cast<vm_table_entry*>(&table[idx]);
     } else {
+#ifdef VM_HOST_POINTERS
+      // a sandbox whose data pointers ARE host addresses (memory-protection-key style): nothing is
+      // added or masked, the region is bounded all the same (impl_is_pointer_in_sandbox_memory)
+      return reinterpret_cast<void*>(static_cast<uintptr_t>(p));
+#else
       return reinterpret_cast<void*>(base + (confine_pointers ? (static_cast<uintptr_t>(p) & RegionMask) : static_cast<uintptr_t>(p)));
+#endif
     }
   }
 
@@ -360,7 +366,11 @@ protected:
       }
       return static_cast<T_PointerType>(e - &table[0]);
     } else {
+#ifdef VM_HOST_POINTERS
+      return static_cast<T_PointerType>(reinterpret_cast<uintptr_t>(p));
+#else
       return static_cast<T_PointerType>(reinterpret_cast<uintptr_t>(p) - base);
+#endif
     }
   }
 
@@ -375,8 +385,12 @@ protected:
       detail::dynamic_check(sandbox != nullptr, "vm backend: no sandbox owns the example pointer");
       return sandbox->template impl_get_unsandboxed_pointer<T>(p);
     } else {
+#ifdef VM_HOST_POINTERS
+      return reinterpret_cast<void*>(static_cast<uintptr_t>(p));
+#else
       uintptr_t b = reinterpret_cast<uintptr_t>(example_unsandboxed_ptr) & ~RegionMask;
       return reinterpret_cast<void*>(b + (static_cast<uintptr_t>(p) & RegionMask));
+#endif
     }
   }
 
@@ -391,8 +405,12 @@ protected:
       detail::dynamic_check(sandbox != nullptr, "vm backend: no sandbox owns the example pointer");
       return sandbox->template impl_get_sandboxed_pointer<T>(p);
     } else {
+#ifdef VM_HOST_POINTERS
+      return static_cast<T_PointerType>(reinterpret_cast<uintptr_t>(p));
+#else
       uintptr_t b = reinterpret_cast<uintptr_t>(example_unsandboxed_ptr) & ~RegionMask;
       return static_cast<T_PointerType>(reinterpret_cast<uintptr_t>(p) - b);
+#endif
     }
   }
 
@@ -407,7 +425,11 @@ protected:
     if (size > RegionSize || bump + rounded > RegionSize) {
       return 0; // allocation failure
     }
+#ifdef VM_HOST_POINTERS
+    auto ret = static_cast<T_PointerType>(base + bump);
+#else
     auto ret = static_cast<T_PointerType>(bump);
+#endif
     bump += rounded;
     return ret;
   }
